@@ -127,7 +127,7 @@ fn run(a: &vhcore::Args) -> i32 {
         let key = if let Some(k) = case.known_class {
             format!("C03|{k}")
         } else if v.label == "O1-full" {
-            format!("C03|pipeline=O1-vs-O0|{}", norm_kind(&d.kind))
+            format!("C03|pipeline=O1-vs-O0|{}|{}", shape_of(case), norm_kind(&d.kind))
         } else if ins.is_empty() {
             // O1 with one pass removed: name the removed pass
             let removed = res
